@@ -479,6 +479,7 @@ class Exec:
         return {'0': r}
 
     def _at_return(self, val):
+        self.endpoints = getattr(self, 'endpoints', 0) + 1
         k = self.k
         st = self.st
         res = None
